@@ -1,6 +1,101 @@
 import Driver.Util
-open Lean
+import Driver.Run
+import DoitModel.Model.Report
+open Lean DoitModel.Run DoitModel.Report
 namespace Driver.P19
-/-- handler for requests with `"model": "c19"` (property-specific monitors / model queries of C19; stub until built) -/
-def handle (_ : Json) : Json := Driver.err "model not implemented"
+/-! Handler for `{"model":"c19", …}` (protocol: harness/props/c19.py docstring).
+
+Input: the run-model input of the case (same fields as `{"model":"run"}`), `n` tasks, `reporter` kind, the FULL
+callback/action trace of the implementation oldest first (`execute` kept also for the process runner), `exit`, `err`,
+optionally `doc` = the parsed `tasks` list of the JSON reporter.  Output: the C19 monitors on that trace, the
+model's rendering of the reporter output for that trace (console tokens / JSON task list), the exit-code
+specification. -/
+
+def kindOf (s : String) : Kind :=
+  match s with
+  | "executed-only" => .executedOnly | "zero" => .zero | "error-only" => .errorOnly | "json" => .json | _ => .console
+
+def tokJson : Tok → Json
+  | .exec n => mkArr [Json.str "exec", toJson n]
+  | .utd n => mkArr [Json.str "utd", toJson n]
+  | .ign n => mkArr [Json.str "ign", toJson n]
+  | .fail n k => mkArr [Json.str "fail", toJson n, Json.str (Driver.Run.failKindStr k)]
+  | .sep => mkArr [Json.str "sep"]
+  | .failAgain n k => mkArr [Json.str "failAgain", toJson n, Json.str (Driver.Run.failKindStr k)]
+  | .errSec n => mkArr [Json.str "errSec", toJson n]
+  | .outSec n => mkArr [Json.str "outSec", toJson n]
+
+def resStr : Option JRes → Json
+  | none => Json.null
+  | some .fail => Json.str "fail"
+  | some .success => Json.str "success"
+  | some .utd => Json.str "up-to-date"
+  | some .ign => Json.str "ignore"
+
+def parseRes (j : Json) : Option JRes :=
+  match j.getStr? with
+  | .ok "fail" => some .fail
+  | .ok "success" => some .success
+  | .ok "up-to-date" => some .utd
+  | .ok "ignore" => some .ign
+  | _ => none
+
+def joutJson (o : JOut) : Json := mkArr [toJson o.name, resStr o.result, Json.bool o.timed]
+
+def parseDoc (j : Json) : List JOut :=
+  (jarr j "doc").map fun x =>
+    match asArr x with
+    | [n, r, t] => { name := asNat n, result := parseRes r, timed := (t.getBool?).toOption.getD false }
+    | _ => { name := 1000000, result := none, timed := false }
+
+/-- index (chronological) of the first event that violates `p e olderEvents`, scanning newest-first list `evs` -/
+def firstBad (p : Ev → List Ev → Bool) : List Ev → Option Nat
+  | [] => none
+  | e :: post =>
+    match firstBad p post with
+    | some i => some i
+    | none => if p e post then none else some post.length
+
+def optNat : Option Nat → Json
+  | none => Json.null
+  | some n => toJson n
+
+def handle (j : Json) : Json :=
+  let inp := Driver.Run.parseInput j
+  let n := jnat j "n"
+  match (jarr j "trace").mapM Driver.Run.parseEv with
+  | none => Driver.err "bad event in trace"
+  | some tr =>
+    let exit := jnat j "exit"
+    let errS := (j.getObjValAs? String "err").toOption.getD ""
+    let kind := kindOf (jstr j "reporter")
+    let fwd := inp.runner = .process
+    let nf := tr.reverse
+    let complete := tr.getLast? == some Ev.complete
+    let mOrd := repOrd true fwd inp.noAct nf
+    let mExec := !complete || execIffStart inp.noAct n tr
+    let mTruth := truthOrd inp n nf
+    let mFin := !(complete && exit ≤ 2) || finReported n tr
+    let halt : Halt := if errS = "" then .none else if errS = "cyclic" then .cyclic else .crash
+    let expExit := exitOf halt (failKinds tr)
+    let mExit := exit == expExit
+    let doc := parseDoc j
+    let mJson := !jhas j "doc" || jsonOK n tr doc
+    Json.mkObj [
+      ("monitor", Json.mkObj [("C19_report_order", Json.bool mOrd), ("C19_exec_iff_start", Json.bool mExec),
+        ("C19_truth", Json.bool mTruth), ("C19_end_reported", Json.bool mFin), ("C19_exit", Json.bool mExit),
+        ("C19_json", Json.bool mJson)]),
+      ("hyp", Json.mkObj [
+        -- hypothesis of `json_ok` / `C19_json`: every announced task has its final report
+        ("all_reported", Json.bool ((List.range n).all fun t => !tr.any (Ev.isExecOf t) || tr.any (Ev.isTerminalOf t))),
+        ("process_runner", Json.bool fwd)]),
+      ("firstBadOrder", optNat (firstBad (repOK true fwd inp.noAct) nf)),
+      ("firstBadTruth", optNat (firstBad (truthOK inp n) nf)),
+      ("expectedExit", toJson expExit),
+      ("finalFold", toJson (finalEv nf)),
+      ("render", mkArr ((render kind inp.noAct tr).map tokJson)),
+      ("json", match jsonOf tr with
+               | some l => mkArr (l.map joutJson)
+               | none => Json.str "raises")]
+
 end Driver.P19
